@@ -90,6 +90,9 @@ CORPUS = [
     # 2-D tiling (float-up)
     ("K 9105 y;none;int;c0;lt;R;vM;preinc;-;c4:outer:inner:d x;none;int;c0;lt;R;vN;addeq;c2;c3:outer:inner:d",
      [V(N=13, M=6), V(N=5, M=9), V(N=0, M=3)]),
+    # F73: the work-group size declared for a tiled kernel is read off the printed count at its first digit 1-9
+    ("K 9107 x1;none;int;c0;lt;R;vN;preinc;-;c8:outer:inner:d", [V(N=20)]),
+    ("K 9108 x;none;int;c0;lt;R;vN;preinc;-;*,c2,vs:outer:inner:d", [V(N=20, s=4)]),
     # inclusive comparison, non-multiple of the step, T = 1
     ("K 9106 x;none;int;c1;le;R;vN;addeq;c5;c1:outer:inner:d", [V(N=21), V(N=22), V(N=1), V(N=0)]),
 ]
